@@ -65,12 +65,30 @@ def cstr_is_string(ctx, toks):
             out.extend(toks[i:i + 3]); out.append(toks[e]); i = e + 1; continue
         out.append(toks[i]); i += 1
     return out
+def stream_ctor(ctx, toks):
+    """ifstream f(PATH);  /  ifstream f(PATH, MODE);  ->  ifstream f = mk_ifstream(PATH); / mk_ifstream_mode(PATH, MODE);   ios::X -> ios_X;   PATH.c_str() -> PATH"""
+    from cxx2c import seq_at, match_close, split_args
+    out = []; i = 0
+    while i < len(toks):
+        t = toks[i]
+        if t.t == 'ifstream' and toks[i + 1].k == 'id' and toks[i + 2].t == '(':
+            e = match_close(toks, i + 2)
+            n = len(split_args(toks[i + 3:e]))
+            out.extend([t, toks[i + 1], P('=', ' '), Tok('id', 'mk_ifstream' if n == 1 else 'mk_ifstream_mode', ' ')]); i += 2; fire(ctx, 'stream-ctor'); continue
+        if t.t == 'ios' and toks[i + 1].t == '::':
+            out.append(Tok('id', 'ios_' + toks[i + 2].t, t.ws)); i += 3; continue
+        if t.k == 'id' and seq_at(toks, i + 1, ['.', 'c_str', '(', ')']):
+            out.append(t); i += 5; continue
+        out.append(t); i += 1
+    return out
+UNITS['FileHDF5x_fileExists'] = dict(file='backend/hdf5/FileHDF5.cpp', locator=r'bool\s+FileHDF5::fileExists\s*\(', cls='FileHDF5x', cls_decl='FileHDF5', cls_file='backend/hdf5/FileHDF5.hpp', classes=['FileHDF5x', 'nstring', 'ifstream'], pre_rules=[stream_ctor])
+JOBS.append(dict(name='FileHDF5x_fileExists', bodies=['FileHDF5x_fileExists'], enforce=['FileHDF5x_fileExists'], replace=[], includes=['c09_exists.h'], extra_c='int gh_openable, gh_streams; long gh_size;\n', expect_kinds=['postcondition'], timeout=300))
 HG = 'backend/hdf5/h5x/H5Group.cpp'; HGH = 'backend/hdf5/h5x/H5Group.hpp'
 for fn, meth in (('H5Group_removeGroup', 'removeGroup'), ('H5Group_renameGroup', 'renameGroup')):
     UNITS[fn] = dict(file=HG, locator=r'void\s+H5Group::%s\s*\(' % meth, cls='H5Group', cls_file=HGH, classes=['H5Group', 'nstring', 'HErr'], inherited_members=['hid'], pre_rules=[cstr_is_string])
     JOBS.append(dict(name=fn, bodies=[fn], enforce=[fn], replace=[], includes=['c09_mutators.h'], extra_c='int gh_child_exists, gh_refuse, gh_unlinks, gh_moves, gh_arg_old, gh_arg_new; long gh_arg_hid;\n',
                      expect_kinds=['postcondition'], timeout=300))
-SPEC = dict(contracts=['c10_version.h', 'c10_header.h', 'c09_open.h', 'c09_mutators.h'], stubs=['h5header.h'], include_order=['c10_version.h', 'h5header.h', 'c10_header.h', 'c09_open.h'], units=UNITS, jobs=JOBS,
+SPEC = dict(contracts=['c10_version.h', 'c10_header.h', 'c09_open.h', 'c09_mutators.h', 'c09_exists.h'], stubs=['h5header.h'], include_order=['c10_version.h', 'h5header.h', 'c10_header.h', 'c09_open.h'], units=UNITS, jobs=JOBS,
             trusted_base=['CBMC 6.11.0 (C front end, --dfcc, SAT back end)', 'vlib/cxx2c.py idiom map incl. region units (statement ranges of the constructor)',
                           'definitional stubs: fileExists / boost::filesystem::exists return one ghost constant; H5Fcreate/H5Fopen record their flags; H5F_ACC_* values read from the installed H5Fpublic.h'],
             assumptions=['libhdf5 honours the access flags (RDONLY never writes, TRUNC empties): not verified',
